@@ -140,6 +140,7 @@ type CheckOutcome struct {
 	ByContract  map[string]bool
 	Wall        float64
 	LoadSecs    float64
+	ThoroughOnly []string
 }
 
 func cmdCheck(args []string) int {
@@ -218,6 +219,11 @@ func runPropertyIn(prog *Program, prop, tier, only, dir string) *CheckOutcome {
 			continue
 		}
 		short := c.PkgPath[strings.LastIndex(c.PkgPath, "/")+1:] + "." + c.Key
+		if c.Opts["tier"] == "thorough" && tier != "thorough" {
+			// heavy obligations that only the thorough tier discharges (reported in evidence)
+			out.ThoroughOnly = append(out.ThoroughOnly, short)
+			continue
+		}
 		if c.Trusted {
 			out.Trusted[short] = true
 			out.Funcs = append(out.Funcs, FuncReport{Name: short, File: relRepo(c.File), Trusted: true, Notes: c.Notes})
@@ -599,6 +605,23 @@ func (e *Enc) verifyLoopBody(fn *ssa.Function, c *FuncContract, li *LoopInfo) {
 		}
 		v := e.freshVal(phi.Type(), phi.Comment)
 		fr.vals[phi] = v
+		if _, isPtr := phi.Type().Underlying().(*types.Pointer); isPtr && len(v.L) == 1 {
+			// the cell of a per-iteration loop variable (Go 1.22): a local of its own, distinct from
+			// every other local cell of the function
+			cell := len(phi.Edges) > 0
+			for _, ed := range phi.Edges {
+				if al, ok := ed.(*ssa.Alloc); !ok || al.Comment != phi.Comment {
+					cell = false
+				}
+			}
+			if cell {
+				e.assert(T{BoolS, app("<", "0", v.L[0].E)})
+				for _, o := range e.extCells {
+					e.assert(Not(Eq(o, v.L[0])))
+				}
+				e.extCells = append(e.extCells, v.L[0])
+			}
+		}
 		sh := e.shape(phi.Type())
 		for i, l := range v.L {
 			e.inputs = append(e.inputs, ModelVar{Name: phi.Comment + sh[i].Path, Term: l, Typ: phi.Type()})
@@ -628,7 +651,7 @@ func (e *Enc) verifyLoopBody(fn *ssa.Function, c *FuncContract, li *LoopInfo) {
 	o.Expect = "sat"
 	n0 := len(e.obls)
 	e.runRegion(fr, li, True, st)
-	if len(e.obls) == n0 && len(spec.BodyEns)+len(spec.ExitEns) > 0 {
+	if len(e.obls) == n0 && len(spec.BodyEns)+len(spec.ExitEns)+len(spec.DoneEns) > 0 {
 		panic(unsupported("loop-body contract produced no obligations"))
 	}
 }
